@@ -200,6 +200,8 @@ pub fn op_fuzz(args: &[&str], payload: &[u8]) -> String {
     let mut max_loop_ratio = 0f64;
     let mut samples: Vec<String> = Vec::new();
     let mut only_input = String::new();
+    let mut only_mode = "";
+    let mut only_off = 0u32;
     for i in start..start + count {
         let mut rng = Rng::new(seed.wrapping_mul(0x100000001B3) ^ i.wrapping_mul(0x9E3779B97F4A7C15));
         let text = if rng.below(10) == 0 { token_soup(&mut rng, maxlen) } else { mutate(&mut rng, &seeds, maxlen) };
@@ -217,8 +219,13 @@ pub fn op_fuzz(args: &[&str], payload: &[u8]) -> String {
         if flag == "trace" {
             eprintln!("I {}", i);
         }
-        if flag == "only" {
+        if flag == "only" || flag == "gen" {
             only_input = text.clone();
+            only_mode = mname;
+            only_off = off;
+        }
+        if flag == "gen" {
+            continue;
         }
         if samples.len() < 4 && i % 97 == 3 {
             samples.push(text.clone());
@@ -324,7 +331,7 @@ pub fn op_fuzz(args: &[&str], payload: &[u8]) -> String {
     let ks: Vec<String> = kinds.iter().map(|(k, v)| format!("{}:{}", jstr(k), v)).collect();
     let ss: Vec<String> = samples.iter().map(|s| jstr(s)).collect();
     format!(
-        "{{\"execs\":{},\"ok\":{},\"err\":{},\"lexerr\":{},\"err_kinds\":{{{}}},\"max_ratio\":{:.3},\"max_ratio_input\":{},\"max_loop_ratio\":{:.3},\"nviol\":{},\"violations\":[{}],\"samples\":[{}],\"only_input\":{}}}",
+        "{{\"execs\":{},\"ok\":{},\"err\":{},\"lexerr\":{},\"err_kinds\":{{{}}},\"max_ratio\":{:.3},\"max_ratio_input\":{},\"max_loop_ratio\":{:.3},\"nviol\":{},\"violations\":[{}],\"samples\":[{}],\"only_input\":{},\"only_mode\":{},\"only_offset\":{}}}",
         execs,
         oks,
         errs,
@@ -336,6 +343,8 @@ pub fn op_fuzz(args: &[&str], payload: &[u8]) -> String {
         nviol,
         vs.join(","),
         ss.join(","),
-        jstr(&hex(only_input.as_bytes()))
+        jstr(&hex(only_input.as_bytes())),
+        jstr(only_mode),
+        only_off
     )
 }
